@@ -186,6 +186,15 @@ func modelOf(keys []string, s c19State, e *c19Env) map[string]string {
 	return m
 }
 
+// sameListing: for a non-empty map the output must be exactly the sorted "@name -> path" lines; for an
+// empty map any message without such a line will do (its wording is not part of the property).
+func sameListing(out string, m map[string]string) bool {
+	if len(m) == 0 {
+		return !strings.Contains(out, " -> ")
+	}
+	return out == listing(m)
+}
+
 func listing(m map[string]string) string {
 	if len(m) == 0 {
 		return "There are no bookmarks defined yet.\n"
@@ -267,7 +276,7 @@ func c19Explore(c *fw.Ctx, idx int, tier fw.Tier) {
 		return
 	}
 	// ---- observers on this state
-	if r := e.run("bookmarks", "list"); r.Code != 0 || r.Stdout != listing(model) {
+	if r := e.run("bookmarks", "list"); r.Code != 0 || !sameListing(r.Stdout, model) {
 		viol("list", fmt.Sprintf("`bookmarks list` printed %q (exit %d), the model gives %q", r.Stdout, r.Code, listing(model)))
 		return
 	}
@@ -287,7 +296,7 @@ func c19Explore(c *fw.Ctx, idx int, tier fw.Tier) {
 		db2 := e2.db()
 		vrt.SetMapChooser(nil)
 		c.Count("map_order_executions", 2)
-		if r.Stdout != listing(model) {
+		if !sameListing(r.Stdout, model) {
 			viol("list-order", fmt.Sprintf("under a different map iteration order (%s alternative) `bookmarks list` printed %q, the model gives %q (ordered by name)", pick, r.Stdout, listing(model)))
 			return
 		}
@@ -502,7 +511,7 @@ func c19Explore(c *fw.Ctx, idx int, tier fw.Tier) {
 			c.Outcome("changed")
 		}
 		// the list agrees, and the bytes are those of the successor state built on its own path
-		if l := e.run("bookmarks", "list"); l.Stdout != listing(next) {
+		if l := e.run("bookmarks", "list"); !sameListing(l.Stdout, next) {
 			viol("list-after", fmt.Sprintf("`bookmarks list` after `klog %s` printed %q, the model gives %q", strings.Join(o.args, " "), l.Stdout, listing(next)))
 			return
 		}
